@@ -33,6 +33,9 @@ Model: lean/PydapModel/Consolidate.lean (command `cons-run`), theorems `C18_cons
       * two probe requests with the same real key have the same unpatched key, or carry the same reference-declared
         constraint on one scheme/host under the reference base (common directory by path segments).
 
+      * (oracle only) `consolidate_metadata` called twice on one session for two collections in disjoint directory trees
+        (the second call wraps the key function of the first), then reads from both: the same judgement.
+
 `replay_case(case) -> bool` re-runs one recorded collection + history on the implementation (True = property holds).
 """
 import contextlib
@@ -545,13 +548,64 @@ def check_collection(ctx, coll, ops, corr, how="generated"):
     return ok
 
 
+# ------------------------------------------------------------------------------------------------
+# two consolidations on one session (oracle only: the model has one declaration)
+
+
+def check_double(ctx, coll_a, coll_b, ops_a, ops_b, how="generated"):
+    """consolidate_metadata twice on ONE CachedSession, for two collections in disjoint directory trees (the second call
+    wraps the key function the first installed), then reads from both, interleaved: every read must still equal the
+    file's own values (reads that are a reference-declared constraint of their own collection in a sharing group that does
+    not answer it identically are excluded, as above)"""
+    from pydap.client import consolidate_metadata
+
+    coll_b = dict(coll_b, files=[dict(f, path="/arch" + f["path"]) for f in coll_b["files"]])
+    both = {"files": coll_a["files"] + coll_b["files"]}
+    files = build_files(both)
+    handed = []
+    s = new_session("cached", files, [], handed)
+    case = {"collection": coll_a, "second_collection": coll_b, "reads": ops_a, "second_reads": ops_b, "how": how}
+    with contextlib.redirect_stdout(io.StringIO()), warnings.catch_warnings():
+        warnings.simplefilter("ignore")
+        for c in (coll_a, coll_b):
+            try:
+                consolidate_metadata([user_url(f) for f in c["files"]], s)
+            except (TypeError, ValueError, KeyError):
+                pass
+    na = len(coll_a["files"])
+    ops = [(0, o) for o in ops_a] + [(1, o) for o in ops_b]
+    ctx.rng("double/%d" % len(repr(case))).shuffle(ops)
+    merged = [[o[0] + (na if w else 0), o[1], o[2]] for w, o in ops]
+    got = run_reads("cached", both, files, merged, session=s)
+    own = own_values(both, files, merged)
+    ok = True
+    for j, (w, o) in enumerate(ops):
+        c = coll_b if w else coll_a
+        f = c["files"][o[0]]
+        decl = ref_declared(c)
+        ce = ce_of(o[1], o[2], shape_of(f, find_var(f, o[1])))
+        if ce in decl and decl[ce][1] > 0 and not answers_identically(c, files, decl[ce][0], decl[ce][1], share_group(c, o[0])):
+            continue
+        if got[j] != own[j]:
+            ok = False
+            ctx.oracle_fail("after two consolidations on one session a read differs from the file's own values", case,
+                            {"read": j, "file": f["path"], "op": o, "ce": ce, "got": got[j]}, {"own": own[j]},
+                            size=2000 * len(both["files"]) + len(repr(case)))
+    ctx.count(("double", repr(case)), nontrivial=True, tag="cons-twice")
+    return ok
+
+
 def replay_case(case):
     import common
 
     cs.block_network()
     ctx = common.Ctx("C18", "quick", 0)
     ctx.findings = []
-    ok = check_collection(ctx, case["collection"], case["reads"], [], how="replay")
+    if "second_collection" in case:
+        b = dict(case["second_collection"], files=[dict(f, path=f["path"][len("/arch"):]) for f in case["second_collection"]["files"]])
+        ok = check_double(ctx, case["collection"], b, case["reads"], case["second_reads"], how="replay")
+    else:
+        ok = check_collection(ctx, case["collection"], case["reads"], [], how="replay")
     for fl in ctx.oracle_failures[:3]:
         print(fl["what"], "observed", fl["observed"], "expected", fl["expected"])
     return ok
@@ -739,6 +793,16 @@ def explore(ctx, tier):
         ops = gen_reads(rng, coll, rng.randint(2, 10))
         check_collection(ctx, coll, ops, corr)
         tally()
+    nd = 250 if ctx.tier == "thorough" else 60 if tier == "thorough" else 12
+    for i in range(nd):
+        a, b = gen_collection(rng), gen_collection(rng)
+        for c in (a, b):
+            for f in c["files"]:
+                f.pop("host", None)
+                if f["path"].startswith("/providers/"):
+                    f["path"] = "/data/cube" + f["path"]
+        check_double(ctx, a, b, gen_reads(rng, a, rng.randint(2, 6)), gen_reads(rng, b, rng.randint(2, 6)))
+    st["two consolidations on one session"] = nd
     ctx.notes.append("consolidate_metadata runs: " + ", ".join("%s=%d" % kv for kv in sorted(st.items())))
     ctx.correspond("consolidate_metadata on a CachedSession: GETs, outcome, keys afterwards, read-history trace vs model cons-run",
                    corr)
